@@ -13,12 +13,27 @@ structure Cfg where
 
 inductive Op
   | pkt (client : String) (cip : Option Nat) (wire : Nat) (opens : List Nat) (plain : List UInt8) (resolve : Target → Resolved)
+  | pktFail (client : String) (cip : Option Nat) (wire : Nat) (opens : List Nat) (plain : List UInt8) (resolve : Target → Resolved)
+      -- the same datagram when the operating system refuses the send (destination port 0, no route, EPERM)
   | reply (client : String) (srcIP : List UInt8) (srcPort : Nat) (body : List UInt8)
   | expire (client : String)
   | update (l : List Entry)
 
+/-- what a refused send changes: nothing leaves, the datagram is reported ERR_WRITE with 0 bytes towards
+    the target; everything else (the association, its deadline — natconn.WriteTo arms it BEFORE the
+    send —, the key search report) is as for a successful send -/
+def failSend (effs : List Eff) : List Eff :=
+  effs.filterMap fun e =>
+    match e with
+    | .send _ _ _ _ => none
+    | .report s w n => some (if s == "OK" then .report "ERR_WRITE" w 0 else .report s w n)
+    | e => some e
+
 def stepOp (c : Cfg) (st : State) : Op → State × List Eff
   | .pkt client cip wire opens plain resolve => upstream c.dnsPort c.ki c.validate resolve st client cip wire opens plain
+  | .pktFail client cip wire opens plain resolve =>
+    ((upstream c.dnsPort c.ki c.validate resolve st client cip wire opens plain).1,
+     failSend (upstream c.dnsPort c.ki c.validate resolve st client cip wire opens plain).2)
   | .reply client srcIP srcPort body =>
     match lookupNat st.nat client with
     | none => (st, [])     -- no socket: nothing can arrive
